@@ -161,7 +161,7 @@ pub fn run_c10<M: ZooMsg + ?Sized>(sc: &Scenario, keep_log: bool) -> RunOutput {
         bounds.push((valid.len(), valid.len() + f.len()));
         valid.extend_from_slice(f);
     }
-    let cap = 2 * plan.max_send.max(M::MIN_SIZE);
+    let cap = plan.send_buf_len;
     let h = build_hostile::<M>(sc, &mut dec, &mut stats, &plan, &wire, &valid, &bounds, cap);
     let pads: Vec<usize> = bounds.iter().enumerate().map(|(i, b)| b.0 + plan.msgs[i].pad_start).collect();
     let stream = h.stream.clone();
@@ -170,6 +170,14 @@ pub fn run_c10<M: ZooMsg + ?Sized>(sc: &Scenario, keep_log: bool) -> RunOutput {
         w.violation = check_hostile::<M>(&w, &h, &wire, &bounds);
     }
     let nontrivial = w.pipe.delivered_total > 0;
+    // reach: guards handed out for bytes at or behind the first hostile byte
+    {
+        let q = bounds.iter().take_while(|b| b.1 <= h.first_edit).count();
+        let n_msgs = w.recvs.iter().filter(|r| matches!(r.outcome, RecvOutcome::Msg { .. })).count();
+        if n_msgs > q {
+            w.stats[P::hostile_guard_handed_out as usize] += (n_msgs - q) as u64;
+        }
+    }
     let mut out = output_of(w, &plan, nontrivial, keep_log);
     if let Some(serde_json::Value::Object(m)) = &mut out.summary {
         m.insert("hostile_kind".into(), h.kind.into());
